@@ -23,7 +23,7 @@ def near_misses(w):
 
 class C11(OptCheck):
     prop = "C11"
-    vfiles = ["Properties/Properties_C11.v", "Tie/Tie_C11.v", "Tie/Tie_C03.v", "Tie/Tie_C04.v"]
+    vfiles = ["Properties/Properties_C11.v", "Tie/Tie_C11.v", "Tie/Tie_C03.v"]
     corpus = "C11.txt"
     oracle_args = ("oracle", "C11")
     design_ref = "DESIGN.md section 6, C11"
